@@ -144,6 +144,37 @@ Theorem C05_hist_called_object_updated (Ms Ms' : list (mat T)) (k : nat) (o : @s
   exists M', sstep AOps M o = Ok (M', a) /\ List.nth_error Ms' k = Some M'.
 Proof. exact (@hist_called_object_updated T AOps Ms Ms' k o a M). Qed.
 Print Assumptions C05_hist_called_object_updated.
+(** References into the object kept by the caller across calls ([hrun]: besides the calls above, the caller takes
+    std::vector<double>& r = M[i]  /  double& e = M[i][j]  at some time and writes through them later -  r[j] = v,
+    std::swap(r1, r2), r = {..}, e = v  - between two queries, without any member call in between).  The clauses are
+    statements about the matrix: the answer is the one for the entries the object has when it is asked. *)
+(** whatever references are held and whatever was written through them, the answer is [squery M q] for the current entries M *)
+Theorem C05_href_answer_after_history (h : list (@hop T)) (q : @sop T) (M0 M : mat T) (tb : htab) (outs : list (@sout T)) :
+  hrun AOps h M0 = Ok ((M, tb), outs) -> is_query q ->
+  hrun AOps (h ++ [:: HCall q]) M0 = rbind (squery AOps M q) (fun a => Ok ((M, tb), (outs ++ [:: a])%list)).
+Proof. exact (@href_answer_after_history T AOps h q M0 M tb outs). Qed.
+Print Assumptions C05_href_answer_after_history.
+(** a write through a held row reference / entry reference is the indexed write  M[i][j] = v  at the position it denotes *)
+Theorem C05_href_row_write (M : mat T) (tb : htab) (h i j : nat) (v : T) : hfind h tb = Some (HRow i) ->
+  hstep AOps (M, tb) (HRowSet h j v) = rbind (supdate AOps M (USet i j v)) (fun M' => Ok ((M', tb), @ONone T)).
+Proof. exact (@href_row_write T AOps M tb h i j v). Qed.
+Print Assumptions C05_href_row_write.
+Theorem C05_href_entry_write (M : mat T) (tb : htab) (h i j : nat) (v : T) : hfind h tb = Some (HElt i j) ->
+  hstep AOps (M, tb) (HEltSet h v) = rbind (supdate AOps M (USet i j v)) (fun M' => Ok ((M', tb), @ONone T)).
+Proof. exact (@href_entry_write T AOps M tb h i j v). Qed.
+Print Assumptions C05_href_entry_write.
+(** std::swap of two held row references is the row exchange  std::swap(M[i], M[j]) *)
+Theorem C05_href_row_swap (M : mat T) (tb : htab) (h1 h2 i j : nat) :
+  hfind h1 tb = Some (HRow i) -> hfind h2 tb = Some (HRow j) ->
+  hstep AOps (M, tb) (HRowSwap h1 h2) =
+  rbind (supdate AOps M (USwap i j)) (fun M' => Ok ((M', List.filter (fun hr => is_hrow hr.2) tb), @ONone T)).
+Proof. exact (@href_row_swap T AOps M tb h1 h2 i j). Qed.
+Print Assumptions C05_href_row_swap.
+(** a history in which no reference is taken is the history [srun] of the theorems above *)
+Theorem C05_href_plain_calls (ops : list (@sop T)) (M0 : mat T) :
+  hrun AOps (List.map (@HCall T) ops) M0 = rbind (srun AOps ops M0) (fun st => Ok ((st.1, [::]), st.2)).
+Proof. exact (@href_plain_calls T AOps ops M0). Qed.
+Print Assumptions C05_href_plain_calls.
 End AnyArithmetic.
 
 Section RealField.
